@@ -139,6 +139,9 @@ def strip_views(t):
         if t.op == 'refine':
             t = t.args[0]
             continue
+        if t.op == 'mu' and getattr(t, 'next', None) is t:
+            t = t.args[0]           # carried through a loop without ever being rebound: the value it had before the loop
+            continue
         if t.op == 'gamma':
             a, b = strip_views(t.args[1]), strip_views(t.args[2])
             if a is b:
@@ -420,6 +423,14 @@ def data_terms(t, seen=None, into_mu=True):
                 and len(x.args[0].args[0]) == x.args[2] and not any(isinstance(y, T) and y.op == 'star' for y in x.args[0].args[0]):
             stack.append(x.args[0].args[0][x.args[1]])
             continue
+        if x.op in ('unpack', 'elem'):
+            # the element of `for a, b in zip(A, B)` / `enumerate(A)` depends on ITS sequence only; the running index on none
+            r = loop_role(x)
+            if r is not None:
+                yield x
+                if r[0] == 'slice':
+                    stack.append(r[2])
+                continue
         yield x
         for a in x.args:
             if isinstance(a, T):
@@ -568,13 +579,22 @@ def loop_role(t, L=None):
     while t.op == 'unpack' and t.args[3] is None:
         path.insert(0, t.args[1])
         t = strip_views(t.args[0])
-    if t.op != 'elem' or (L is not None and t.extra is not L) or t.extra is None:
-        return None         # (the variable of a comprehension has no loop object: it stays an ordinary term)
+    if t.op != 'elem' or t.extra is None:
+        return None
     loop = t.extra
+    if L is not None and loop is not L and getattr(L, 'loop', None) is not loop:
+        return None
     it = strip_views(t.args[0]) if t.args and isinstance(t.args[0], T) else None
     while it is not None:
         if is_call_to(it, 'builtin.range') and not path:
             return ('index', loop)
+        if is_call_to(it, 'numpy.ndindex') and not call_parts(it)[2]:
+            dims = call_parts(it)[1]
+            if len(dims) == 1 and not path and dims[0].op != 'star':
+                return ('index', loop)
+            if len(path) == 1 and path[0] < len(dims) and not any(d.op == 'star' for d in dims):
+                return ('index', loop_axis(loop, path[0], dims[path[0]]))      # for k, d in np.ndindex(K, D): two independent running indices
+            return None
         if is_call_to(it, 'builtin.enumerate') and path and not call_parts(it)[2] and len(call_parts(it)[1]) == 1:
             if path[0] == 0 and len(path) == 1:
                 return ('index', loop)
@@ -641,7 +661,7 @@ def index_chain(t):
             for x in its:
                 r = loop_role(x)
                 conv.append(('index', r[1]) if r is not None and r[0] == 'index' else strip_views(x))
-            items = conv + items
+            items = _compose_index(conv, items)
             t = strip_views(t.args[0])
             continue
         r = loop_role(t)
@@ -651,6 +671,22 @@ def index_chain(t):
             continue
         break
     return t, items
+
+
+def _compose_index(inner, outer):
+    """index items of X[inner][outer] as one index of X: every full slice of `inner` is the axis the next item of `outer`
+    addresses (X[f, :, :][p, :] is X[f, p, :]); inner items that consume an axis stay"""
+    if not outer:
+        return list(inner)
+    if any(isinstance(x, T) and (const_val(x) is Ellipsis or const_val(x) is None) for x in list(inner) + [o for o in outer if isinstance(o, T)]):
+        return list(inner) + list(outer)        # `...` / None: keep the plain concatenation (callers treat it as unknown layout)
+    out, rest = [], list(outer)
+    for x in inner:
+        if is_full_slice(x) and rest:
+            out.append(rest.pop(0))
+        else:
+            out.append(x)
+    return out + rest
 
 
 def is_full_slice(x):
@@ -680,3 +716,142 @@ def gamma_paths(t, conds=None, depth=0):
 def compatible(c1, c2):
     """two path conditions that do not test the same condition with opposite outcomes"""
     return all(k not in c2 or c2[k][1] == v[1] for k, v in c1.items())
+
+
+def axis_reordering(t):
+    """t is a pure reordering of the axes of its operand (no value is touched):
+       np.transpose(x, axes) / x.transpose(*axes) -> (x, ('perm', axes));  swapaxes / an adjacent moveaxis -> (x, ('swap', {a, b}));
+       a general moveaxis -> (x, ('move', s, d));  x.T -> (x, ('reverse',));  else None"""
+    t = strip_views(t)
+    if not isinstance(t, T):
+        return None
+    if t.op == 'attr' and t.args[1] == 'T':
+        return t.args[0], ('reverse',)
+    n, pos, kw = call_parts(t)
+    if n is None:
+        return None
+    c = canon(n)
+    if c == 'numpy.transpose':
+        if n == 'method:transpose' and len(pos) > 2:
+            ax = tuple(const_val(p) for p in pos[1:])
+        else:
+            a = call_arg(t, 1, 'axes')
+            ax = const_val(a) if a is not None else None
+            if isinstance(ax, list):
+                ax = tuple(ax)
+            if a is not None and a.op == 'list':
+                ax = tuple(const_val(x) for x in a.args[0])
+        if ax is None:
+            return pos[0], ('reverse',)
+        if isinstance(ax, tuple) and all(isinstance(x, int) for x in ax):
+            return pos[0], ('perm', ax)
+        return None
+    if c == 'numpy.swapaxes':
+        a, b = const_val(call_arg(t, 1, 'axis1')), const_val(call_arg(t, 2, 'axis2'))
+        if isinstance(a, int) and isinstance(b, int):
+            return pos[0], ('swap', frozenset((a, b)))
+        return None
+    if c == 'numpy.moveaxis':
+        s, d = const_val(call_arg(t, 1, 'source')), const_val(call_arg(t, 2, 'destination'))
+        if isinstance(s, int) and isinstance(d, int):
+            if abs(s - d) == 1 and (s < 0) == (d < 0):
+                return pos[0], ('swap', frozenset((s, d)))
+            return pos[0], ('move', s, d)
+    return None
+
+
+def swaps_first_two_of_three(t):
+    """(F, K, T) <-> (K, F, T) on a 3-D array, whichever way it is spelled -> operand, else None"""
+    r = axis_reordering(t)
+    if r is None:
+        return None
+    x, spec = r
+    if spec == ('perm', (1, 0, 2)) or spec in (('swap', frozenset((0, 1))), ('swap', frozenset((-3, -2)))):
+        return x
+    return None
+
+
+def last_axis_product_sum(t):
+    """t == sum over the LAST axis of an elementwise product: np.sum(a * b, axis=-1[, keepdims]) | np.sum(x ** 2, -1) | np.sum(np.square(x), -1) |
+    np.einsum('...d,...d->...', a, b)  ->  (a, b, keepdims) with a is b for a sum of squares; else None"""
+    t = strip_views(t)
+    if is_call_to(t, 'numpy.einsum'):
+        n, pos, kw = call_parts(t)
+        if len(pos) == 3 and isinstance(const_val(pos[0]), str):
+            sub = const_val(pos[0]).replace(' ', '')
+            import re
+            m = re.fullmatch(r'\.\.\.([a-zA-Z]),\.\.\.([a-zA-Z])->\.\.\.', sub)
+            if m and m.group(1) == m.group(2):
+                return strip_views(pos[1]), strip_views(pos[2]), False
+        return None
+    if not is_call_to(t, 'numpy.sum'):
+        return None
+    ax = call_arg(t, 1, 'axis')
+    if ax is None or const_val(ax) != -1:
+        return None
+    kd = call_arg(t, 3, 'keepdims')
+    kd = bool(const_val(kd)) if kd is not None and const_val(kd) is not NOVAL else False
+    x = strip_views(call_arg(t, 0, 'a'))
+    if x.op == 'binop' and x.args[0] == 'Mult':
+        return strip_views(x.args[1]), strip_views(x.args[2]), kd
+    if x.op == 'binop' and x.args[0] == 'Pow' and const_val(x.args[2]) == 2:
+        b = strip_views(x.args[1])
+        return b, b, kd
+    if is_call_to(x, 'numpy.square'):
+        b = strip_views(call_arg(x, 0))
+        return b, b, kd
+    return None
+
+
+class LoopAxis:
+    """one of the running indices of `for i, j in np.ndindex(n, m)`"""
+    def __init__(self, loop, j, extent):
+        self.loop, self.j, self.extent = loop, j, extent
+        self.iter = None
+        self.kind = 'axis'
+
+
+def loop_axis(loop, j, extent):
+    cache = loop.__dict__.setdefault('_axes', {})
+    if j not in cache:
+        cache[j] = LoopAxis(loop, j, extent)
+    return cache[j]
+
+
+def index_extent(lp):
+    """number of iterations of a running index: the n of range(n) / ndindex(.., n, ..), ('len', X) for enumerate(X) / `for x in X`; else None"""
+    if isinstance(lp, LoopAxis):
+        return strip_views(lp.extent)
+    it = strip_views(lp.iter) if getattr(lp, 'iter', None) is not None else None
+    if it is None:
+        return None
+    if is_call_to(it, 'builtin.range') and len(call_parts(it)[1]) == 1:
+        return strip_views(call_parts(it)[1][0])
+    if is_call_to(it, 'builtin.enumerate') and len(call_parts(it)[1]) == 1:
+        return ('len', strip_views(call_parts(it)[1][0]))
+    if is_call_to(it, 'builtin.zip'):
+        return ('len', tuple(strip_views(x) for x in call_parts(it)[1]))
+    return ('len', it)
+
+
+def indexed_values(graph):
+    """elementwise definitions of arrays: (running index object, value term, defining node) for
+         for i in ...: X[i] = v(i)          (a store at the running index)
+         X = [v(i) for i in ...]            (a comprehension with one generator)"""
+    out = []
+    for e in graph.events:
+        if e.kind == 'store':
+            idx = e.term.args[1]
+            items = list(idx.args[0]) if idx.op == 'tuple' else [idx]
+            roles = [loop_role(x) for x in items]
+            if roles and all(r is not None and r[0] == 'index' for r in roles):
+                out.append((tuple(r[1] for r in roles), e.term.args[2], e.node))
+    seen = set()
+    for r in [graph.ret] + [e.term for e in graph.events if e.term is not None]:
+        for t in walk_terms(r, seen):
+            if t.op == 'comp' and len(t.args[2]) == 1 and len(t.args[1]) == 1 and not t.args[3]:
+                # the loop object of the generator hangs on its element term
+                els = [x for x in walk_terms(t.args[1][0], into_mu=False) if x.op == 'elem' and x.args and x.args[0] is t.args[2][0] and x.extra is not None]
+                if els:
+                    out.append(((els[0].extra,), t.args[1][0], t.node))
+    return out
